@@ -230,11 +230,67 @@ def selfcal_script(seed, which):
     return s.text()
 
 
+def alias_script(seed):
+    """short flows every k of which is failed in the quick tier too: mode
+    switches that happen inside other calls, and calls that hand the library a
+    string it returned itself"""
+    s = Script()
+    s.op("vd=vnadata_alloc")
+    s.op("vnadata_init $vd 1 2 2 2")
+    s.op("vnadata_set_fz0 $vd 0 0 0x1.2p+6 0x1p+2")
+    s.op("vnadata_init $vd 1 1 1 1")
+    s.op("vnadata_has_fz0 $vd")
+    s.op("vnadata_set_fz0 $vd 0 0 0x1.2p+6 0x1p+2")
+    s.op("vnadata_set_all_z0 $vd 75 0")
+    s.op("vnadata_set_format $vd \"Sma\"")
+    s.op("vnadata_set_format_own $vd")
+    s.op("vnadata_set_format $vd \"Sri,Zma\"")
+    s.op("vnadata_get_format $vd")
+    s.op("vnadata_set_format_own $vd")
+    s.op("dump_vnadata $vd")
+    s.op("vc=vnacal_create")
+    s.op("vn=vnacal_new_alloc $vc T8 1 1 1")
+    s.rvec("f", [1.5e9])
+    s.op("vnacal_new_set_frequency_vector $vn @f")
+    s.cmat("m1", [[0.1 + 0.2j]])
+    s.cmat("m2", [[0.5 + 0.2j]])
+    s.cmat("m3", [[-0.4 + 0.2j]])
+    s.op("vnacal_new_add_single_reflect_m $vn @m1 1 1 0 1")
+    s.op("vnacal_new_add_single_reflect_m $vn @m2 1 1 1 1")
+    s.op("vnacal_new_add_single_reflect_m $vn @m3 1 1 2 1")
+    s.op("vnacal_new_solve $vn")
+    s.op("ci=vnacal_add_calibration $vc \"a\" $vn")
+    s.op("vnacal_new_solve $vn")
+    s.op("ci2=vnacal_add_calibration_own_name $vc 0 $vn")
+    s.op("vnacal_save $vc \"c12_alias.vnacal\"")
+    s.op("vnacal_save_own_filename $vc")
+    s.op("vnacal_get_filename $vc")
+    s.op("dump_vnacal $vc")
+    s.op("read_file \"c12_alias.vnacal\"")
+    return s.text()
+
+
+def generated_scripts(seed, n, nops=50):
+    """call histories from the C03 generator (valid / boundary / invalid
+    arguments over every object kind, deep calibration states, files):
+    allocation failures in states no scripted flow reaches"""
+    import gen_api
+    out = []
+    for k in range(n):
+        rng = np.random.default_rng([seed, k, 1212])
+        g = gen_api.ApiGen(rng)
+        w = [(0.3, 0.2, 0.5), (0.6, 0.2, 0.2), (0.1, 0.6, 0.3),
+             (0.1, 0.05, 0.85)][k % 4]
+        out.append(("gen%d" % k, g.generate(nops, w)))
+    return out
+
+
 def all_scripts(seed):
     return [
         ("cal_trl", selfcal_script(seed, "trl")),
         ("cal_lm_corr", selfcal_script(seed, "lm")),
         ("param", param_script(seed)),
+        ("alias", alias_script(seed)),
         ("property", property_script(seed)),
         ("vnadata", vnadata_script(seed)),
         ("cal_t8_m", cal_script(seed, "T8", 2, 2, 2, "m", tag="t8")),
@@ -256,6 +312,9 @@ def strip(ev):
          if k not in ("a0", "a1", "fault", "i", "retried", "ms")}
     if isinstance(d.get("ret"), str) and d["ret"].startswith("obj#"):
         d["ret"] = "obj"
+    if isinstance(d.get("out"), dict) and "first_errno" in d["out"]:
+        d["out"] = {k: v for k, v in d["out"].items()
+                    if k not in ("first_rc", "first_errno")}
     if not is_fail(d):
         d.pop("errno", None)   # errno is meaningless after success
     return d
@@ -282,6 +341,7 @@ def work(chunk_id, payload):
               "!faultretry 1\nfault arm %d\n" % k + text) for k in ks]
     results = R.run_cases(binary, cases, wd, timeout=1800)
     base = [strip(e) for e in base_events]
+    cbase = [json.dumps(x, sort_keys=True) for x in base]
     for (cid, ctext), k in zip(cases, ks):
         res = results[cid]
         v, inc = R.standard_violations(res, ctext, PROP)
@@ -304,7 +364,10 @@ def work(chunk_id, payload):
         fe = faulted[0]
         site = os.path.basename(fe["fault"])
         part["distinct"].add(site)
-        failed = is_fail(fe) or bool(fe.get("retried"))
+        # composite subtree ops repeat only their failed second step (the
+        # first one created a node): "first_errno" is that failure's errno
+        inner = isinstance(fe.get("out"), dict) and "first_errno" in fe["out"]
+        failed = is_fail(fe) or bool(fe.get("retried")) or inner
         # position of the faulted event in the aligned sequence
         pos = 0
         for e in evs:
@@ -325,6 +388,8 @@ def work(chunk_id, payload):
             if isinstance(fe.get("out"), dict) and "set_errno" in fe["out"] \
                     and fe["out"].get("set_rc") == -1:
                 eno = fe["out"]["set_errno"]
+            if inner:
+                eno = fe["out"]["first_errno"]
             if eno != "ENOMEM":
                 part["violations"].append(dict(
                     key="%s:wrong-errno:%s" % (PROP, fe["op"]),
@@ -342,10 +407,24 @@ def work(chunk_id, payload):
             if e.get("retried"):
                 continue
             seq.append(strip(e))
-        if len(seq) != len(base) or any(a != b for a, b in zip(seq, base)):
+        # compared as canonical JSON text: NaN values are legitimate
+        # contents and NaN != NaN as a float
+        cseq = [json.dumps(x, sort_keys=True) for x in seq]
+        cb_ = cbase
+        if not failed and pos < len(seq) and pos < len(base):
+            # the faulted call succeeded: a warning it issued while the
+            # allocation for the message text failed carries strerror text
+            # instead; the call's result is what counts
+            cseq = list(cseq)
+            cb_ = list(cbase)
+            cseq[pos] = json.dumps({k: v for k, v in seq[pos].items()
+                                    if k != "cb"}, sort_keys=True)
+            cb_[pos] = json.dumps({k: v for k, v in base[pos].items()
+                                   if k != "cb"}, sort_keys=True)
+        if len(seq) != len(base) or cseq != cb_:
             # find first difference
             d = 0
-            while d < min(len(seq), len(base)) and seq[d] == base[d]:
+            while d < min(len(seq), len(base)) and cseq[d] == cb_[d]:
                 d += 1
             a = seq[d] if d < len(seq) else None
             b = base[d] if d < len(base) else None
@@ -370,11 +449,13 @@ def main():
     chk = R.Check(PROP, level="fault_enumeration")
     binary = chk.build("fi")
     scripts = all_scripts(chk.seed)
+    ngen = int((8 if chk.tier == "quick" else 96) * chk.args.scale)
+    scripts += generated_scripts(chk.seed, ngen)
     payloads = []
     Ks = {}
     for name, text in scripts:
         wd = os.path.join(chk.workroot, "base_" + name)
-        res = R.run_cases(binary, [(name, "fault count\n" + text + "fault count\n")],
+        res = R.run_cases(binary, [(name, "!faultretry 0\nfault count\n" + text + "fault count\n")],
                           wd)[name]
         v, inc = R.standard_violations(res, text, PROP)
         if res.status != "ok" or v:
@@ -391,7 +472,8 @@ def main():
         nfail = sum(1 for e in base_events if is_fail(e))
         chk.count("fault_free_failed_events", nfail)
         if chk.tier == "quick":
-            step = 1 if name in ("param", "property") else 7
+            step = 1 if name in ("param", "property", "alias") else \
+                (5 if name.startswith("gen") else 7)
             off = chk.seed % step
             ks = list(range(1 + off, K + 1, step))
         else:
